@@ -2,7 +2,7 @@
     interpreter) and renders the observations.  Used by the extracted
     driver and by the in-Coq [vm_compute] cross-check; no theorem depends
     on this file. *)
-From WalModel Require Export Proto Reader Wawk.
+From WalModel Require Export Proto Reader Wawk WawkParse.
 
 Definition PF : nat := Z.to_nat 100000.
 Definition init_result : res unit := wal_init.
@@ -238,6 +238,17 @@ Definition run_cmd (toks : list string) (st : state) : string * option state :=
               end
           end
       | _, _ => ("bad", None)
+      end
+  | "wawkx" :: t :: _ =>
+      (* one WAWK expression text: lexer, parser of the expression fragment, TreeToWal *)
+      match str_arg t with
+      | Some text =>
+          match wawk_expr text with
+          | XOk v => ("ok " ++ print_val [] 200 v, Some st)
+          | XErr => ("err P", Some st)
+          | XUnm => ("unm 00", None)
+          end
+      | None => ("bad", None)
       end
   | "csv" :: t :: _ =>
       match str_arg t with
